@@ -182,13 +182,19 @@ def one_case(args):
     pipe = rng.random() < 0.3
     argv = ([] if pipe else [path]) + ([] if mode == ["WRITER"] else mode) + opts
     N = int(opts[opts.index("-E") + 1]) if "-E" in opts else None
-    r = obs.run(exe, argv, stdin_path=path if pipe else None, workdir=wd, timeout=90, env={"RUST_BACKTRACE": "1"}, tag="c%d" % case)
+    env = {"RUST_BACKTRACE": "1", "ASAN_OPTIONS": "halt_on_error=1:detect_leaks=0:abort_on_error=1"}
+    r = obs.run(exe, argv, stdin_path=path if pipe else None, workdir=wd, timeout=90 if isinstance(exe, str) else 600, env=env, tag="c%d" % case)
+    if not isinstance(exe, str) and r.rc == 99:      # valgrind --error-exitcode
+        d = save_replay("C04", "case%d" % case, {"input.raw": data, "stderr.txt": r.stderr}, dict(seed=seed, case=case, argv=argv, pipe=pipe, source=src))
+        out["viol"] = ("memcheck:" + (re.search(r"== (Invalid \w+|Conditional jump|Use of uninitialised|Syscall param[^\n]*)", r.stderr) or [None, "error"])[1][:40],
+                       "valgrind memcheck reports an error: %s" % r.stderr[-600:], d)
+        return out
     out["sample"] = "%s (%d bytes), %s" % (src, len(data), " ".join(a if not a.startswith(wd) else os.path.basename(a) for a in argv))
     out["key"] = (src.split(":")[0], " ".join(mode), tuple(sorted(o for o in opts if o.startswith("-") and not o[1:].isdigit())))
     what = sig = None
     if r.timeout:
         # decide hang vs slow with the logical criterion
-        o = procmon.run([exe] + argv, cwd=wd, stdin_data=data if pipe else None, env=dict(os.environ, TMPDIR=wd), watchdog=60, hard=300)
+        o = procmon.run((list(exe) if not isinstance(exe, str) else [exe]) + argv, cwd=wd, stdin_data=data if pipe else None, env=dict(os.environ, TMPDIR=wd), watchdog=60, hard=300)
         if o.hung:
             what, sig = "hang: no progress (all threads asleep, no CPU time consumed)", "hang:%s" % " ".join(mode)
         elif o.inconclusive:
@@ -216,11 +222,11 @@ def one_case(args):
     return out
 
 
-def run_corpus(res, exe, wd, n, label):
+def run_corpus(res, exe, wd, n, label, first_case=0):
     corpus = [(p, open(p, "rb").read()) for p in shipped_files()]
     dir_inputs = directed(rng_for(res.seed, 0, 99))
     total = 0
-    for o in pmap(one_case, [(exe, wd, res.seed, c, res.tier, corpus, dir_inputs) for c in range(n)]):
+    for o in pmap(one_case, [(exe, wd, res.seed, c, res.tier, corpus, dir_inputs) for c in range(first_case, first_case + n)]):
         res.evaluations += 1
         total += o["size"]
         if o["viol"]:
